@@ -103,7 +103,14 @@ let after_tree (u : Float64.t expr) (toks : Float64.t token list option) (b : Bu
   Buffer.add_string b (" ; du " ^ show_cps du ^ " ; ru " ^ reread du);
   Buffer.add_string b (" ; df " ^ show_cps df ^ " ; rf " ^ reread df)
 
+let with_ref = ref false
 let after_tokens ts b =
+  (* on the comparison-only copies (ctext / ctoks): the Coq reference reader on the same tokens, compared with
+     the oracle's reader (not with the crate) *)
+  let finish () =
+    if !with_ref then
+      Buffer.add_string b (match f_ref_read ts with Some e -> " ; ref " ^ expr_str e | None -> " ; ref none") in
+  (fun k -> k (); finish ()) @@ fun () ->
   match f_parse_unfolded ts with
   | Panic _ -> raise Model_panic
   | Err e ->
@@ -119,7 +126,9 @@ let run (line : string) : string =
   let t = toks_of_line line in
   let b = Buffer.create 256 in
   try
-    (match word t with
+    (let cmd = word t in
+     with_ref := (cmd = "ctext" || cmd = "ctoks");
+     match cmd with
      | "text" | "ctext" ->
        (match f_lexer (cpstr t) with
         | Panic _ -> raise Model_panic
